@@ -528,3 +528,52 @@ pub proof fn reach_overlap(v: Version, w: Version)
     lemma_k_flip(key(v), key(w));
     assert(bs_wf(a) && bs_wf(b) && boverlap(a, b) && !ballows_all(a, b) && !ballows_all(b, a));
 }
+
+/// a desugaring closure may return `None` only for a comparator pair nothing can enter (`2.0.0 - 1.0.0`): npm's reading of it
+/// admits no version either, so dropping it like a garbage token loses nothing ("parsing may fail only when ... no version at all
+/// could satisfy it")
+pub proof fn lemma_shape_none_is_empty(c: CSet, v: VKey)
+    requires shape_ok_c(None, c), wfk(v), c is Two ==> ((c->Two_0.op is Ge || c->Two_0.op is Gt) && (c->Two_1.op is Lt || c->Two_1.op is Le)),
+    ensures !set_ok(cset_seq(c), v)
+{
+    broadcast use group_sets, group_k_order;
+    reveal(cut_cmp);
+    let lo = cset_lo(c); let hi = cset_hi(c);
+    if set_ok(cset_seq(c), v) {
+        match c {
+            CSet::Zero => {},
+            CSet::One(a) => { lemma_set1(a, v); },
+            CSet::Two(a, b) => { lemma_set2(a, b, v); },
+        }
+        assert(above(lo, v) && below(hi, v));
+        lemma_cut_between(lo, hi, v);
+    }
+}
+
+/// the link from the shape clauses of the desugaring functions to the representation invariant: an interval whose two cuts are those
+/// of npm's comparators represents them (same bounds membership, same prerelease opt-in inside the bounds)
+pub proof fn lemma_shape_c_repr(bs: BoundSet, c: CSet)
+    requires shape_ok_c(Some(bs), c), c is Two ==> ((c->Two_0.op is Ge || c->Two_0.op is Gt) && (c->Two_1.op is Lt || c->Two_1.op is Le)),
+    ensures repr(bs, cset_seq(c))
+{
+    let cs = cset_seq(c);
+    match c {
+        CSet::Zero => { assert(cs.len() == 0); },
+        CSet::One(a) => { assert(cs.len() == 1 && cs[0] == a); },
+        CSet::Two(a, b) => { assert(cs.len() == 2 && cs[0] == a && cs[1] == b); },
+    }
+    assert(lower_cut(cs) == cset_lo(c) && upper_cut(cs) == cset_hi(c));
+    lemma_repr_from_shape(bs, cs);
+}
+/// ... and the same for the two forms the crate writes differently (`<=M` as `<=M.MAX.MAX`)
+pub proof fn lemma_shape_equiv_repr(bs: BoundSet, c: CSet)
+    requires shape_equiv_c(Some(bs), c), c is One, c->One_0.op is Lt || c->One_0.op is Le
+    ensures repr(bs, cset_seq(c))
+{
+    broadcast use group_sets, group_k_order;
+    let a = c->One_0;
+    assert forall|v: VKey| #![trigger within(bs, v)] wfk(v) implies (within(bs, v) <==> set_ok(cset_seq(c), v)) && (within(bs, v) ==> (gate(bs, v) <==> set_gate(cset_seq(c), v))) by {
+        lemma_set1(a, v);
+        assert(above(cset_lo(c), v));
+    }
+}
